@@ -292,6 +292,9 @@ class P(Prop):
         (M, "TV.C13.gpx_collection_roundtrip", "writeToGpx(collection, file) - oneFile=True, the default - writes one <trk> per track; the file is read back as the same number of tracks in the same order, each with its points in order"),
         (M, "TV.C13.gpx_af_file_roundtrip", "the same for writeToGpx(af=True): the reader skips the <extensions> block of every point (one <name>value</name> line per feature, none of which closes the block itself), the points come back unchanged whatever the features are called"),
         (M, "TV.C13.gpx_af_names_ok", "every feature name without < > newline, not starting with / and other than 'extensions', with a value text without < and newline, is fine for gpx_af_file_roundtrip - time, ele, trk, trkpt included"),
+        (M, "TV.C13.gpx_same_number_same_order", "GPX, any length: a track of ANY number of points is read back as one track with the same number of points, the i-th point read being the i-th point written"),
+        (M, "TV.C13.net_same_number_same_order", "network, any size: ANY number of edges with ANY number of vertices each, header written / not and read with the matching count: the same number of edges, the i-th edge read being the i-th edge written (ids, end nodes, orientation, every vertex)"),
+        (M, "TV.C13.wkt_same_number_same_order", "WKT, any length: a track of any non-zero number of vertices exported by toWKT is parsed back as the same number of vertices, the i-th parsed being the i-th exported"),
         (M, "TV.C13.reread_roundtrip", "a timestamp text read under ANY lossless read format f2 gives the stamp whose text under f2 it is - whatever format it was printed with and whatever was read before (the oracle clause of the reread / twin-format sessions)"),
         (M, "TV.C13.gpx_read_formats", "'4Y-2M-2DT2h:2m:2s' with or without Z reads the stamps the GPX writer prints, calendar part unchanged"),
         (M, "TV.C13.written_precision_partial", "the written precision is that of the text: the fixed-point text of CSV / GPX and the str(float) text of WKT (any magnitude, e or E) are read back by float() as exactly the decimal printed (format()'s rounding of arbitrary doubles and repr's choice of the shortest digits not covered)"),
